@@ -47,7 +47,7 @@ GROUPS += [
 for _b in range(1, 17):
     GROUPS.append(dict(_LS, name='ls_bin_b%d' % _b, entry='h_ls_bin', defines=['-DVERIF_BITS=%d' % _b], timeout=3600, tier='quick' if _b == 1 else 'thorough',
         functions=['ec_encode_bin', 'ec_decode_bin', 'ec_dec_update'], what='lock-step + invariants of ec_encode_bin / ec_decode_bin + ec_dec_update, bits = %d' % _b))
-_INV = dict(cls='B', tu='C08_inversion_b.c', entry='h_inversion', dfcc=False, canary='real', expect_canaries=2,
+_INV = dict(cls='B', tu='C08_inversion_b.c', entry='h_inversion', dfcc=False, canary='real', expect_canaries=2, cex={'self': True, 'timeout': 300},
             functions=['ec_enc_init', 'ec_encode', 'ec_encode_bin', 'ec_enc_bit_logp', 'ec_enc_icdf', 'ec_enc_uint', 'ec_enc_bits', 'ec_enc_done',
                        'ec_dec_init', 'ec_decode', 'ec_decode_bin', 'ec_dec_update', 'ec_dec_bit_logp', 'ec_dec_icdf', 'ec_dec_uint', 'ec_dec_bits', 'ec_tell', 'ec_tell_frac'])
 _KN = {0: 'bit', 1: 'bin', 2: 'icdf', 3: 'bits', 4: 'uint', 5: 'freq'}
